@@ -15,6 +15,7 @@ import (
 	"runtime/debug"
 	"strings"
 	"sync"
+	"sync/atomic"
 	"unsafe"
 )
 
@@ -123,6 +124,24 @@ type Exec struct {
 // SpinLimit is the number of consecutive steps after which a running thread is deprioritised
 // in favour of other enabled threads (fair scheduling of yield-free busy-wait loops).
 var SpinLimit = 2000
+
+// Heartbeat counts scheduling points across executions (read by the worker's watchdog).
+var Heartbeat uint64
+
+// SnapshotChoices returns the choice indexes recorded so far by the active execution (racy read,
+// used only by the watchdog to report where a thread stopped reaching scheduling points).
+func SnapshotChoices() []int {
+	x := X
+	if x == nil {
+		return nil
+	}
+	cs := x.Choices
+	out := make([]int, 0, len(cs))
+	for _, c := range cs {
+		out = append(out, c.Idx)
+	}
+	return out
+}
 
 // X is the active execution; nil means free-running mode (all shims pass through).
 var X *Exec
@@ -265,6 +284,7 @@ func (x *Exec) stuckKind() string {
 // It returns when `me` has been chosen to perform that op.
 func (x *Exec) sched(me *Thread) {
 	x.Steps++
+	atomic.AddUint64(&Heartbeat, 1)
 	if x.Horizon > 0 && x.Steps > x.Horizon {
 		x.fail("hang", "step horizon exceeded, the execution does not terminate: "+x.describeBlocked())
 	}
